@@ -760,7 +760,7 @@ def check_map(ctx, where, index, map_, frames_results, gt_counts, policy, level,
                 w, nb = tp_weight(ctx, r, lab, mode_name, thr, policy, aph)
                 boundary = boundary or nb
                 if aph and w:
-                    # the heading agreement of a TP standing flat on the ground, from the two orientations themselves
+                    # the heading agreement of a TP, from the two orientations themselves (both in one frame)
                     want_w = ref.ref_heading_agreement(V.quat_of(r.estimated_object), V.quat_of(r.ground_truth_object))
                     if want_w is None:
                         ctx.skip("c04_heading_of_tilted_box")
